@@ -14,6 +14,7 @@ import SnapraidVerif.Hash.Spooky2
 import SnapraidVerif.Props.C12
 import SnapraidVerif.Array.Scan
 import SnapraidVerif.Array.Shortcut
+import SnapraidVerif.Ring.Model
 
 open SnapraidVerif SnapraidVerif.GF SnapraidVerif.Raid SnapraidVerif.Codec
 
@@ -71,6 +72,108 @@ def chunks (n : Nat) : Nat → List B → List (List B)
 
 def matrixOf (mode : String) : Option (Nat → Nat → B) :=
   if mode = "cauchy" then some cauchy else if mode = "power" then some power else none
+
+/-- trace acceptor for the ring protocol: replays the hook's events on `Ring.step`; returns a verdict line -/
+def ringAccept (N R W : Nat) (evs : List String) : String := Id.run do
+  let M := 1000000000
+  let mut s := Ring.init N
+  let mut k := 0
+  let mut spurious := 0
+  let stepOr (s : Ring.St) (a : Ring.Act) : Option Ring.St := Ring.step N R W M s a
+  -- caller-internal steps that produce no event
+  let autoCompute (s : Ring.St) : Ring.St :=
+    if s.pc == .collect && s.pend.isEmpty && !s.cwait then (match stepOr s .compute with | some t => t | none => s) else s
+  for ev in evs do
+    k := k + 1
+    let f := ev.splitOn ","
+    let num (i : Nat) : Nat := ((f.getD i "0").toNat?).getD 0
+    let kind := f.getD 0 ""
+    if kind == "S" || kind == "SP" || kind == "" then
+      continue
+    else if kind == "RN" then
+      let mut t := autoCompute s
+      if t.pc == .wcollect && W == 0 then
+        t := (match stepOr t .writeNext with | some u => u | none => t)
+      match stepOr t .readNext with
+      | some u =>
+        if Ring.ri N u != num 1 then return s!"reject {k} RN reader_index {num 1} model {Ring.ri N u}"
+        s := u
+      | none => return s!"reject {k} RN not enabled"
+    else if kind == "C" then
+      if Ring.ri N s != num 2 then return s!"reject {k} C slot {num 2} model {Ring.ri N s}"
+      match stepOr s (.collect (num 1)) with
+      | some u => s := u
+      | none => return s!"reject {k} C {num 1} not enabled (worker still in the caller's slot, or not pending)"
+    else if kind == "CB" then
+      if s.cwait then spurious := spurious + 1
+      else match stepOr s .cblock with
+        | some u => s := u
+        | none => return s!"reject {k} CB not enabled"
+    else if kind == "WC" then
+      let t := autoCompute s
+      match stepOr t (.wcollect (num 1)) with
+      | some u => s := u
+      | none => return s!"reject {k} WC {num 1} not enabled"
+    else if kind == "WB" then
+      let t := autoCompute s
+      if t.cwait then spurious := spurious + 1
+      else match stepOr t .wblock with
+        | some u => s := u
+        | none => return s!"reject {k} WB not enabled"
+    else if kind == "WN" then
+      let t := autoCompute s
+      if Ring.wi N t != num 1 then return s!"reject {k} WN writer_index {num 1} model {Ring.wi N t}"
+      match stepOr t .writeNext with
+      | some u => s := u
+      | none => return s!"reject {k} WN not enabled"
+    else if kind == "ST" then
+      match stepOr s .stop with
+      | some u => s := u
+      | none => return s!"reject {k} ST not enabled"
+    else if kind == "RA" then
+      let r := num 1
+      if (s.a r + 1) % N != num 2 then return s!"reject {k} RA {r} index {num 2} model {(s.a r + 1) % N}"
+      let sig := if s.a r % N == Ring.ri N s then 1 else 0
+      if sig != num 3 then return s!"reject {k} RA {r} signal {num 3} model {sig}"
+      match stepOr s (.rAdvance r) with
+      | some u => s := u
+      | none => return s!"reject {k} RA {r} not enabled"
+    else if kind == "RB" then
+      let r := num 1
+      if s.rwait r then spurious := spurious + 1
+      else match stepOr s (.rBlock r) with
+        | some u => s := u
+        | none => return s!"reject {k} RB {r} not enabled"
+    else if kind == "RX" then
+      match stepOr s (.rExit (num 1)) with
+      | some u => s := u
+      | none => return s!"reject {k} RX {num 1} not enabled"
+    else if kind == "WA" then
+      let w := num 1
+      if s.b w % N != num 2 then return s!"reject {k} WA {w} index {num 2} model {s.b w % N}"
+      let sig := if (s.b w + N - 1) % N == (Ring.wi N s + 1) % N then 1 else 0
+      if sig != num 3 then return s!"reject {k} WA {w} signal {num 3} model {sig}"
+      match stepOr s (.wAdvance w) with
+      | some u => s := u
+      | none => return s!"reject {k} WA {w} not enabled"
+    else if kind == "WK" then
+      let w := num 1
+      if s.wwait w then spurious := spurious + 1
+      else match stepOr s (.wBlock w) with
+        | some u => s := u
+        | none => return s!"reject {k} WK {w} not enabled"
+    else if kind == "WX" then
+      match stepOr s (.wExit (num 1)) with
+      | some u => s := u
+      | none => return s!"reject {k} WX {num 1} not enabled"
+    else return s!"reject {k} unknown event {kind}"
+  let fin := s.pc == .stopped && (List.range R).all (fun r => s.rexit r) && (List.range W).all (fun w => s.wexit w)
+  let wrote := (List.range W).all (fun w => s.wrote w == (List.range s.J).reverse)
+  let took := s.took.all (fun t => t.2.2 == t.1)
+  if !fin then return s!"reject {k} end of trace but not final"
+  if !wrote then return s!"reject {k} some writer did not write every scheduled stripe in order"
+  if !took then return s!"reject {k} caller took data of another stripe"
+  return s!"ok events={k} spurious={spurious} I={s.I} J={s.J}"
 
 def handle (toks : List String) : String :=
   match toks with
@@ -187,6 +290,10 @@ def handle (toks : List String) : String :=
     (match c, r with
      | some c, some r => if Props.C12.allowed c r then "1" else "0"
      | _, _ => "bad-op")
+  | ["ring-accept", n, r, w, evs] =>
+    (match n.toNat?, r.toNat?, w.toNat? with
+     | some n, some r, some w => if n < 3 then "bad-op" else ringAccept n r w (evs.splitOn "|")
+     | _, _, _ => "bad-op")
   | ["shortcut-sync", pre, spec] =>
     -- shortcut-sync <prehash 0|1> <stripe;stripe;…>, stripe = st:match,… with st in b|c|p and match in 0|1
     -- (does the data on disk hash to the recorded hash); reply: per stripe 1 = completed, 0 = stopped
